@@ -139,4 +139,7 @@ LookAtLaw == P < 0 =>
         RH == LH
     IN /\ IsLookAt(LH, eye, VAdd(eye, VScale(f, d)), VAdd(VScale(u, aa), VScale(f, bb)), 1)
        /\ IsLookAt(RH, eye, VSub(eye, VScale(f, d)), VAdd(VScale(u, aa), VScale(f, bb)), -1)
+       \* the axioms do not depend on the length of `up` (the drivers run the code on up * 2^k and log the direction)
+       /\ IsLookAt(LH, eye, VAdd(eye, VScale(f, d)), VScale(VAdd(VScale(u, aa), VScale(f, bb)), FDiv(F1, FI(4))), 1)
+       /\ IsLookAt(RH, eye, VSub(eye, VScale(f, d)), VScale(VAdd(VScale(u, aa), VScale(f, bb)), FI(3)), -1)
 =============================================================================
